@@ -1258,6 +1258,22 @@ func runHistory(run *sim.Run, caseID int) {
 		5 * time.Second, 400 * time.Millisecond, 700 * time.Millisecond, 1500 * time.Millisecond, 10 * time.Second, 30 * time.Second}
 	for b := 0; b < nBlocks && !c.failed; b++ {
 		dt := sim.Pick(rng, dts)
+		if rng.Chance(1, 12) {
+			// a feeds parameter change that is executed and then dropped with its branch (a passed proposal whose
+			// later message fails): state keeps the old parameters, and so must the price calculation
+			np := c.params
+			np.PriceQuorum = sim.Pick(rng, []string{"0.9", "1", "0.05", "0.5", "0.000001"})
+			np.MaxDeviationBasisPoint = c.params.MaxDeviationBasisPoint + int64(rng.Range(0, 50))
+			msg := &feedstypes.MsgUpdateParams{Authority: sim.GovAddr().String(), Params: np}
+			if err := w.AuthorityRolledBack(msg); err == nil {
+				run.Count("chain:param-change-executed-then-rolled-back", 1)
+			} else {
+				run.Count("chain:rolled-back-param-change-refused", 1)
+			}
+			if c.w2 != nil {
+				c.w2.AuthorityRolledBack(msg)
+			}
+		}
 		next := w.Time.Add(dt)
 		// validators
 		for i, v := range w.Vals {
@@ -1448,7 +1464,7 @@ func main() {
 		"chain:excluded-stale-price", "chain:fresh-exactly-at-interval-boundary", "chain:stale-by-one-second",
 		"chain:excluded-inactive-validator-with-fresh-price", "chain:excluded-unbonded-validator-with-fresh-price",
 		"chain:deactivated-by-feeds", "chain:validator-jailed-left-bonded-set", "chain:current-feeds-changed", "chain:available-with-differing-inputs",
-		"chain:replica-blocks-compared", "tx:submit:ok", "tx:vote:ok", "tx:delegate:ok",
+		"chain:replica-blocks-compared", "tx:submit:ok", "tx:vote:ok", "tx:delegate:ok", "chain:param-change-executed-then-rolled-back",
 	} {
 		run.Require(cnt, 1)
 	}
